@@ -347,8 +347,25 @@ def natural_family(ck, seed, quick):
         if rr and rr[0]["mon"] != "ok":
             chosen = (P, W, plan, dict(rr[0], sched=r["sched"]))
             break
-    if bad and chosen is None:
-        chosen = bad[0]
+    if bad and (chosen is None or not chosen[3]["sched"]):
+        # nothing reproduced (the failing runs were later runs of a batch): look for a failing FIRST run of a process
+        plans = []
+        for (P, W, plan, r) in bad:
+            if (P, W, plan) not in plans:
+                plans.append((P, W, plan))
+        found = None
+        for k in range(400 if quick else 3000):
+            P, W, plan = plans[k % len(plans)]
+            rc, out, err = sh([exe, str(P), str(W), plan, "rand", str(seed * 100003 + 7 * k + 1), "1"], timeout=300)
+            rr = parse_runs(out)
+            if rr and rr[0]["mon"] != "ok":
+                found = (P, W, plan, rr[0])
+                break
+        if found:
+            chosen = found
+        elif chosen is None:
+            P, W, plan, r = bad[0]
+            chosen = (P, W, plan, dict(r, mon=r["mon"] + " [schedule did not reproduce in a fresh process: found in a later run of a batch]"))
     ck.extra.setdefault("schedules", {})["natural_runs"] = total
     ck.oblige("monitor:natural usage (nested parallel_for with explicit contexts, workers, external canceller): reach / overreach / winner / no hang",
               "correspondence", not bad, "" if not bad else "%s | P=%d W=%d plan=%s" % (chosen[3]["mon"], chosen[0], chosen[1], chosen[2]))
@@ -565,6 +582,18 @@ class Acc:
                 if runs and runs[0]["mon"] != "ok" and classify(runs[0]) == key:
                     chosen = (sc, runs[0])
                     break
+            if chosen is None:
+                # look for a failing FIRST run of a process on the scenarios that failed
+                scs = []
+                for (sc, r) in cl:
+                    if sc not in scs:
+                        scs.append(sc)
+                for k in range(300):
+                    sc = scs[k % len(scs)]
+                    rc, runs, tail = run_scenario(exe, sc, ["rand", 900001 + 13 * k, 1])
+                    if runs and runs[0]["mon"] != "ok" and classify(runs[0]) == key:
+                        chosen = (sc, runs[0])
+                        break
             if chosen is None:
                 sc, r = cl[0]
                 r = dict(r, mon=r["mon"] + " [schedule did not reproduce in a fresh process: found in a later run of a batch]")
